@@ -12,7 +12,8 @@ open BbRe.Sched
 /-- how operations evolve as far as waiter counts are concerned -/
 structure OpW (s s' : State) : Prop where
   nop : s.nextOp ≤ s'.nextOp
-  keep : ∀ o op', s'.op? o = some op' → (∃ op, s.op? o = some op ∧ op'.waiters = op.waiters) ∨ s.nextOp ≤ o
+  keep : ∀ o op', s'.op? o = some op' → (∃ op, s.op? o = some op ∧ op'.waiters = op.waiters) ∨
+    (s.nextOp ≤ o ∧ op'.waiters = 0)
   gone : ∀ o op, s.op? o = some op → s'.op? o = none → op.waiters = 0
 
 /-- `OpW` for key-disciplined states -/
@@ -30,8 +31,8 @@ theorem OStep.trans {a b c : State} (h1 : OStep a b) (h2 : OStep b c) : OStep a 
     rcases r2.keep o op' e with ⟨opb, eb, wb⟩ | hf
     · rcases r1.keep o opb eb with ⟨opa, ea, wa⟩ | hf
       · exact .inl ⟨opa, ea, wb.trans wa⟩
-      · exact .inr hf
-    · exact .inr (Nat.le_trans r1.nop hf)
+      · exact .inr ⟨hf.1, wb.trans hf.2⟩
+    · exact .inr ⟨Nat.le_trans r1.nop hf.1, hf.2⟩
   · intro o op e e'
     cases hb : b.op? o with
     | none => exact r1.gone o op e hb
@@ -39,7 +40,7 @@ theorem OStep.trans {a b c : State} (h1 : OStep a b) (h2 : OStep b c) : OStep a 
       rcases r1.keep o opb hb with ⟨opa, ea, wa⟩ | hf
       · rw [e] at ea; injection ea with ea; subst ea
         rw [← wa]; exact r2.gone o opb hb e'
-      · have := (hk.oname o op e).2.1; omega
+      · have := (hk.oname o op e).2.1; have := hf.1; omega
 
 theorem OStep.of {allow : Prop} {s s' : State} (ht : TStep allow s s') (ho : KeysOK s → OpW s s') : OStep s s' :=
   fun hk => ⟨(ht hk).1, ho hk⟩
@@ -87,8 +88,8 @@ theorem succS_opw {s : State} (t : Task) (ev : Event) (r : Resp) (hk : KeysOK s)
     rcases h2.keep o op' e with ⟨opb, eb, wb⟩ | hf
     · rcases h1.keep o opb eb with ⟨opa, ea, wa⟩ | hf
       · exact .inl ⟨opa, ea, wb.trans wa⟩
-      · exact .inr hf
-    · exact .inr (Nat.le_trans h1.nop hf)
+      · exact .inr ⟨hf.1, wb.trans hf.2⟩
+    · exact .inr ⟨Nat.le_trans h1.nop hf.1, hf.2⟩
   · intro o op e e'
     have eb : M.op? o = some op := by simpa [State.op?, hMo] using e
     rcases hs.ops o with ⟨e1, _⟩ | ⟨op1, op2, _, e2, _⟩
@@ -115,7 +116,7 @@ theorem complete_ostep {h : Hints} {s s' : State} {tid : Nat} {r : Resp} {bw : B
       · intro o op' e
         rw [hop] at e
         split at e
-        · rename_i hkk; exact .inr (by omega)
+        · rename_i hkk; injection e with e; subst e; exact .inr ⟨by omega, rfl⟩
         · exact f.keep o op' e
       · intro o op e e'
         rw [hop] at e'
